@@ -3,8 +3,11 @@
 package util
 
 import (
+	"context"
 	"fmt"
 	"sort"
+
+	"github.com/milvus-io/milvus-sdk-go/v2/client"
 )
 
 // VerifRangeOrder, when set by a simulation harness, decides the order in which
@@ -57,4 +60,15 @@ func (c *ChannelMapping) VerifTable() (table map[string]string, sourceIsKey bool
 		}
 	}
 	return table, c.UsingSourceKey(), c.sourceCnt, c.targetCnt
+}
+
+// VerifMilvusClient, when set by a simulation harness, supplies the SDK client for
+// every (address, database) instead of dialing the target Milvus.
+var VerifMilvusClient func(ctx context.Context, address, token, database string) client.Client
+
+func verifMilvusClient(ctx context.Context, address, token, database string) client.Client {
+	if f := VerifMilvusClient; f != nil {
+		return f(ctx, address, token, database)
+	}
+	return nil
 }
